@@ -108,7 +108,62 @@ def bounded_emitted_mapping(tier, seed):
             "bound": "1 document: 4 discriminator values onto 2 schemas", "evaluations": n, "distinct_nontrivial": 4, "exhaustive": False, "failures": failures}
 
 
-BOUNDED = [bounded_runtime_unions, bounded_emitted_mapping]
+def bounded_generated_union_members(tier, seed):
+    """every member of a declared oneOf / anyOf survives into the generated union (inline maps, bare objects, arrays, primitives, refs), and a payload
+    of each member decodes and re-encodes to itself through the generated alias"""
+    import json
+    from props import corpus as C, gen_harness as G
+    P = C.PRIMS
+    S = {"type": "string"}
+    schemas = {
+        "Item": C.obj({"id": P["str"], "n": P["int"]}, ["id"]),
+        "Text": {"oneOf": [{"type": "array", "items": S}, {"type": "object", "additionalProperties": S}]},
+        "Loose": {"anyOf": [{"type": "object", "additionalProperties": P["int"]}, S]},
+        "Mixed": {"oneOf": [C.ref("Item"), {"type": "array", "items": C.ref("Item")}, {"type": "object", "additionalProperties": C.ref("Item")}, P["int"]]},
+        "Holder": C.obj({"text": C.ref("Text"), "loose": C.ref("Loose"), "mixed": C.ref("Mixed")}, []),
+    }
+    d = C.doc("UM", [C.op("/h", "get", "getH", ["h"], responses={"200": C.resp_json(C.ref("Holder")), "201": C.resp_json(C.ref("Text")), "202": C.resp_json(C.ref("Mixed"))})], schemas)
+    payloads = [("text", ["a", "b"]), ("text", {"en": "Hello", "fi": "Hei"}), ("loose", {"a": 1, "b": 0}), ("loose", "plain"),
+                ("mixed", {"id": "i", "n": 0}), ("mixed", [{"id": "i"}]), ("mixed", {"k": {"id": "i", "n": 2}}), ("mixed", 0)]
+    root = G.scratch("c14m")
+    failures, n = [], 0
+    try:
+        err = G.generate(d, root, "um")
+        if err is not None:
+            return {"function": "generated unions", "backend": "bounded", "bound": "generation failed", "evaluations": 0, "distinct_nontrivial": 0, "exhaustive": False,
+                    "failures": [{"id": "bounded:generated-union:generation", "detail": f"{type(err).__name__}: {err}"[:300], "input": {}}]}
+        code = textwrap.dedent('''
+            import json
+            from um.models.holder import Holder
+            from um.core.cattrs_converter import structure_from_dict
+            from um.core.utils import DataclassSerializer
+            bad = []
+            for field, value in json.loads(%r):
+                doc = {field: value}
+                try:
+                    back = json.loads(json.dumps(DataclassSerializer.serialize(structure_from_dict(doc, Holder))))
+                    if back != doc:
+                        bad.append((field, value, "re-encoded as " + json.dumps(back)))
+                except Exception as e:
+                    bad.append((field, value, type(e).__name__ + ": " + str(e)[:120]))
+            print("RESULT " + json.dumps(bad))
+        ''') % json.dumps(payloads)
+        ok, out = G.import_modules(root, ["um.models"], extra_code=code)
+        n = len(payloads)
+        line = next((l for l in out.splitlines() if l.startswith("RESULT ")), None)
+        if not ok or line is None:
+            failures.append({"id": "bounded:generated-union:harness", "detail": out[-500:], "input": {}})
+        else:
+            for field, value, why in json.loads(line[7:]):
+                kind = "map" if isinstance(value, dict) and field != "mixed" or (field == "mixed" and isinstance(value, dict) and "id" not in value) else type(value).__name__
+                failures.append({"id": f"bounded:generated-union:{field}:{kind}", "detail": f"{field} = {json.dumps(value)[:120]}: {why}"[:400], "input": {"field": field, "value": value}})
+    finally:
+        shutil.rmtree(root, ignore_errors=True)
+    return {"function": "generated union aliases: a conforming payload of EVERY declared member (inline map, array, bare primitive, $ref object) decodes and re-encodes to itself",
+            "backend": "bounded", "bound": f"1 document, 3 unions, {len(payloads)} payloads", "evaluations": n, "distinct_nontrivial": n, "exhaustive": False, "failures": failures}
+
+
+BOUNDED = [bounded_runtime_unions, bounded_emitted_mapping, bounded_generated_union_members]
 
 
 def _w_first_match(k):
